@@ -134,7 +134,7 @@ def classify_c12(hist, at, what, slack):
         enters = [r for r in hist if r["ev"] == "enter" and r["t"] <= dec["t"]]
         last = max(enters, key=lambda r: r["t"])
         pops = [r for r in hist if r["ev"] == "pop" and r["t"] <= dec["t"]]
-        turns = [r for r in hist if r["ev"] == "turnbegin" and r["t"] <= last["t"]]
+        turns = [r for r in hist[:hist.index(last)] if r["ev"] == "turnbegin"]      # a turn is exclusive: the latest one logged before the entry is its own
         if last["a"] >= 0 and last["t"] - last["a"] > eps and turns and -3 <= last["a"] - turns[-1]["t"] <= eps:
             return "StaleTurnClock"       # the runtime stamped this message with the start time of its (long) turn
         if pops and last["t"] >= pops[-1]["t"] - 1:
@@ -218,7 +218,7 @@ def run_c12(ctx):
               for c in (["MC_live_susp.cfg"] if quick else ["MC_live_susp.cfg", "MC_live.cfg"])]      # the manager always returns to its run loop
     exhibits = {d: pool.submit(tlc, ctx, False, SPEC, "MC_asis_%s.cfg" % c, module="MC_Passivate", timeout=900, workers=1, expect_fail=True)
                 for d, c in (("NoRecheck", "norecheck"), ("StaleTurnClock", "stale"), ("StaleCountTrigger", "counttrigger"),
-                             ("HotRearm", "hotrearm"))}
+                             ("HotRearm", "hotrearm"), ("DoublePush", "doublepush"))}
     # ---- the state graphs of the model of the tree under test (and of the tree before the tryPassivation fix: regression witnesses)
     dumps = {t: pool.submit(tlc, ctx, False, SPEC, "Dump_%s.cfg" % t, module="MC_Passivate", timeout=3000, workers=4, dump_dot=True)
              for t in tiers + ["prefix"]}
